@@ -320,6 +320,10 @@ class CTCSkipInserter(Elaboratable):
         with m.Else():
             m.d.ss += [
                 self.source        .stream_eq(self.sink),
+
+                # Only forward words we have actually accepted: sink.ready is registered (and low after
+                # reset), so a word presented while it is low stays on the sink and must not be sent twice.
+                self.source.valid  .eq(self.sink.valid & self.sink.ready),
             ]
 
         return m
